@@ -18,6 +18,8 @@ harness/pygen_c13.py for the inner blocks.
     compute_path_dsjctn             split simple / synchronised requests; the vector order `dlist = dis.disjunctions_req.copy()`;
                                     the final loop: each non-synchronised request gets compute_constrained_path(network, req)
                                     of its own (no value carried from one request to the next)               -> g_route_memo
+    explicit_path                   whole body: the explicit route is built in a NEW list ([source] + oms0.el_list ...), the OMS
+                                    objects attached to the network elements are only read                    -> g_explicit_path_new_list
     compare_reqs                    the conjunction of `req1.x == req2.x` (+ same_disj) that makes two requests twins
                                                                                      -> g_compared_fields (translated: the list)
   gnpy/topology/topology_parameters.py
@@ -239,6 +241,53 @@ def gen_compare(tree, out):
     out.append('Definition g_compared_fields : list string :=\n  [' + '; '.join(f'"{f}"%string' for f in fields) + '].\n')
 
 
+EXPLICIT_PATH = """
+path_oms = []
+for elem in node_list:
+    if hasattr(elem, 'oms'):
+        path_oms.append(elem.oms)
+if not path_oms:
+    return None
+path_oms = unique_ordered(path_oms)
+try:
+    next_node = next(network.successors(source))
+    source_roadm = next_node if isinstance(next_node, Roadm) else source
+    previous_node = next(network.predecessors(destination))
+    destination_roadm = previous_node if isinstance(previous_node, Roadm) else destination
+    if not (path_oms[0].el_list[0] == source_roadm and path_oms[-1].el_list[-1] == destination_roadm):
+        return None
+except StopIteration:
+    return None
+oms0 = path_oms[0]
+path = [source] + oms0.el_list
+for oms in path_oms[1:]:
+    if not is_adjacent(oms0, oms):
+        return None
+    oms0 = oms
+    path.extend(oms.el_list)
+path.append(destination)
+path = unique_ordered(path)
+if path[-1] is not destination or not all(network.has_edge(a, b) for a, b in pairwise(path)) \
+        or not ispart(node_list, path):
+    return None
+return path
+"""
+
+
+def gen_explicit_path(tree, out):
+    fn = find(tree, 'explicit_path')
+    match_template(EXPLICIT_PATH, strip_doc(fn.body), 'explicit_path')
+    # the OMS objects hang on the network elements: nothing of them may be written (the route is built in a NEW list)
+    for n in ast.walk(fn):
+        tg = n.targets if isinstance(n, (ast.Assign, ast.Delete)) else [n.target] if isinstance(n, (ast.AugAssign, ast.AnnAssign)) else []
+        for t in tg:
+            if any(isinstance(x, ast.Attribute) for x in ast.walk(t)):
+                raise Unsupported(f'explicit_path: `{src(n)[:80]}` writes an attribute')
+    out.append('(* gnpy/topology/request.py: explicit_path.  Matched: whole body; the route is `[source] + oms0.el_list` (a NEW list),')
+    out.append('   extended with the el_list of the following adjacent OMS; no attribute of an element or OMS is assigned. *)')
+    out.append('Definition g_explicit_path_new_list : bool := true.\n')
+
+
 UPDATE_ATTR = """
 clean_kwargs = {k: v for k, v in kwargs.items() if v != ''}
 for k, v in self.default_values.items():
@@ -346,6 +395,7 @@ def generate(repo=None):
     gen_cpwd(rq, out)
     gen_pom(rq, out)
     gen_dsjctn(rq, out)
+    gen_explicit_path(rq, out)
     gen_compare(rq, out)
     gen_params(tree('gnpy/topology/topology_parameters.py'), out)
     gen_science(tree('gnpy/core/science_utils.py'), tree('gnpy/core/elements.py'), out)
